@@ -49,9 +49,9 @@ def _v(spec_store, real_store, layouts, imp, frac):
 def std_variants(tier: str, noop: bool) -> List[Dict[str, Any]]:
     """Alias / module import forms change the text of the caller between layouts (the call is
     spelled differently), so Relayout is only enabled (>= 2 layouts) with plain from-imports."""
-    v = [_v("local", "local", ["one", "split"], "from", 1.0),
-         _v("local", "local+lru", ["split"], "from_as", 0.34),
-         _v("memory", "memory", ["one", "moved"], "from", 0.34)]
+    v = [_v("local", "local", ["one", "split"], "from", 0.7 if tier == "quick" else 1.0),
+         _v("local", "local+lru", ["split"], "from_as", 0.25),
+         _v("memory", "memory", ["one", "moved"], "from", 0.25)]
     if noop:
         v.append(_v("noop", "noop", ["split"], "module", 0.2))
     # every process of the history is a fresh interpreter with its own PYTHONHASHSEED
@@ -261,6 +261,7 @@ def run_family(prop: str, tier: str) -> int:
     t0 = time.time()
     gens: Dict[Any, List[Dict[str, Any]]] = {}
     proto_traces: List[Any] = []
+    drift = 0
     for (vi, v) in enumerate(variants):
         placement = "cells" if v.get("cells") else "package"
         key = (v["spec_store"], tuple(v["layouts"]), placement)
@@ -320,6 +321,11 @@ def run_family(prop: str, tier: str) -> int:
                 rep.violation(fp, det)
             if not viols:
                 rep.add_sample(evalfam.sample_of(shape, hist, obs))
+            if prop == "C02" and not v.get("cells"):
+                try:
+                    drift += oracles.coarser_than_cone(hist, obs)
+                except Exception:
+                    pass
             if fam.get("protocol") and not fam.get("loads") and len(proto_traces) < 1500:
                 from . import evalproto
                 proto_traces.append(evalproto.traces_from_replay(hist, obs, v["real_store"] == "noop",
@@ -331,6 +337,8 @@ def run_family(prop: str, tier: str) -> int:
     rep.cov["reference_run_evaluations_agreeing"] = ref_checked
     rep.cov["macro_actions_in_generated_histories"] = kinds_seen
     rep.cov["shapes"] = [s.name for s in S]
+    if prop == "C02":
+        rep.cov["informational_pairs_with_different_cone_but_equal_signature"] = drift
     rep.cov["plans"] = plans
     rep.cov["exhaustive"] = False
     rep.cov["exhaustive_part"] = "TLC enumerates every history of the listed plans over the listed shapes (MaxVer=%d)" % max_ver
